@@ -166,6 +166,11 @@ type c06Roles struct {
 	defs   map[string]string // local name -> rendered defining expression
 	multi  map[string]bool
 	raw    map[string]c06Def
+	all    map[string][]c06Def
+	// table-driven code: locals that denote one element of a composite-literal table, and the entry in force
+	tables map[string][]map[string]ast.Expr
+	alias  map[string]string
+	entry  map[string]ast.Expr
 }
 
 type c06Def struct {
@@ -176,7 +181,7 @@ type c06Def struct {
 
 func c06NewRoles(fd *ast.FuncDecl) *c06Roles {
 	r := &c06Roles{params: map[string]string{}, defs: map[string]string{}, multi: map[string]bool{},
-		raw: map[string]c06Def{}}
+		raw: map[string]c06Def{}, all: map[string][]c06Def{}}
 	i := 0
 	for _, fl := range fd.Type.Params.List {
 		for _, n := range fl.Names {
@@ -257,6 +262,7 @@ func c06NewRoles(fd *ast.FuncDecl) *c06Roles {
 			continue
 		}
 		r.raw[name] = vals[0]
+		r.all[name] = vals
 		first := exprString(vals[0].e) + fmt.Sprint(vals[0].idx)
 		for _, d := range vals[1:] {
 			if exprString(d.e)+fmt.Sprint(d.idx) != first {
@@ -267,6 +273,77 @@ func c06NewRoles(fd *ast.FuncDecl) *c06Roles {
 	return r
 }
 
+// scanTables finds `T := [...]S{{f: v, …}, …}` tables and the locals that
+// denote one of their elements (`x := &T[i]`, `x := T[i]`, `for _, x := range T`).
+func (r *c06Roles) scanTables(fd *ast.FuncDecl) {
+	r.tables = map[string][]map[string]ast.Expr{}
+	r.alias = map[string]string{}
+	elemOf := func(e ast.Expr) string {
+		if u, ok := e.(*ast.UnaryExpr); ok {
+			e = u.X
+		}
+		if ix, ok := e.(*ast.IndexExpr); ok {
+			if id, ok := ix.X.(*ast.Ident); ok {
+				return id.Name
+			}
+		}
+		return ""
+	}
+	ast.Inspect(fd.Body, func(n ast.Node) bool {
+		switch x := n.(type) {
+		case *ast.AssignStmt:
+			if len(x.Lhs) == 1 && len(x.Rhs) == 1 {
+				id, ok := x.Lhs[0].(*ast.Ident)
+				if !ok {
+					return true
+				}
+				if cl, ok := x.Rhs[0].(*ast.CompositeLit); ok {
+					var entries []map[string]ast.Expr
+					for _, el := range cl.Elts {
+						ecl, ok := el.(*ast.CompositeLit)
+						if !ok {
+							return true
+						}
+						m := map[string]ast.Expr{}
+						for _, kv := range ecl.Elts {
+							if p, ok := kv.(*ast.KeyValueExpr); ok {
+								if k, ok := p.Key.(*ast.Ident); ok {
+									m[k.Name] = p.Value
+								}
+							}
+						}
+						entries = append(entries, m)
+					}
+					if len(entries) > 0 {
+						r.tables[id.Name] = entries
+					}
+				} else if t := elemOf(x.Rhs[0]); t != "" {
+					r.alias[id.Name] = t
+				}
+			}
+		case *ast.RangeStmt:
+			if v, ok := x.Value.(*ast.Ident); ok {
+				if t, ok := x.X.(*ast.Ident); ok {
+					r.alias[v.Name] = t.Name
+				}
+			}
+		}
+		return true
+	})
+}
+
+func (r *c06Roles) renderDef(d c06Def, depth int) string {
+	s := c06AbstractOrder(r.render(d.e, depth+1))
+	switch d.e.(type) {
+	case *ast.BinaryExpr, *ast.UnaryExpr, *ast.StarExpr, *ast.TypeAssertExpr:
+		s = "(" + s + ")"
+	}
+	if d.idx >= 0 {
+		s = c06AbstractOrder("(" + s + ")" + fmt.Sprintf("#%d", d.idx))
+	}
+	return s
+}
+
 func (r *c06Roles) render(e ast.Expr, depth int) string {
 	switch x := e.(type) {
 	case *ast.Ident:
@@ -274,20 +351,47 @@ func (r *c06Roles) render(e ast.Expr, depth int) string {
 			return p
 		}
 		if r.multi[x.Name] {
-			return "?"
+			// several textually different definitions: the same value if
+			// they all RENDER the same (e.g. both are the decoded order)
+			if depth >= 6 {
+				return "?"
+			}
+			seen := ""
+			for _, d := range r.all[x.Name] {
+				one := r.renderDef(d, depth)
+				if seen != "" && one != seen {
+					return "?"
+				}
+				seen = one
+			}
+			if seen == "" {
+				return "?"
+			}
+			return seen
 		}
 		if d, ok := r.raw[x.Name]; ok && depth < 8 {
 			if d.e == nil {
 				return "var:" + d.typ
 			}
-			s := "(" + r.render(d.e, depth+1) + ")"
+			s := r.render(d.e, depth+1)
+			switch d.e.(type) {
+			case *ast.BinaryExpr, *ast.UnaryExpr, *ast.StarExpr, *ast.TypeAssertExpr:
+				s = "(" + s + ")"
+			}
 			if d.idx >= 0 {
-				s += fmt.Sprintf("#%d", d.idx)
+				s = "(" + s + ")" + fmt.Sprintf("#%d", d.idx)
 			}
 			return s
 		}
 		return x.Name
 	case *ast.SelectorExpr:
+		if id, ok := x.X.(*ast.Ident); ok && r.entry != nil {
+			if _, isAlias := r.alias[id.Name]; isAlias {
+				if v, ok := r.entry[x.Sel.Name]; ok {
+					return r.render(v, depth+1)
+				}
+			}
+		}
 		return r.render(x.X, depth) + "." + x.Sel.Name
 	case *ast.CallExpr:
 		var as []string
@@ -309,12 +413,147 @@ func (r *c06Roles) render(e ast.Expr, depth int) string {
 	return exprString(e)
 }
 
+// c06Call is one call found in a function or in a same-package helper it
+// calls (helpers are inlined: their parameters stand for the rendered
+// arguments of the call site, so an extracted helper yields the same fact).
+type c06Call struct {
+	name   string
+	args   []string
+	inLit  bool // inside a function literal of the root function
+}
+
+var c06PkgFiles []*ast.File
+
+func c06Reach(fd *ast.FuncDecl, bind map[string]string, depth int, inLit bool, visit func(c06Call)) {
+	roles := c06NewRoles(fd)
+	roles.scanTables(fd)
+	for k, v := range bind {
+		roles.params[k] = v
+	}
+	var walk func(n ast.Node, lit bool)
+	walk = func(n ast.Node, lit bool) {
+		ast.Inspect(n, func(m ast.Node) bool {
+			if fl, ok := m.(*ast.FuncLit); ok && m != n {
+				walk(fl.Body, true)
+				return false
+			}
+			ce, ok := m.(*ast.CallExpr)
+			if !ok {
+				return true
+			}
+			if se, ok := ce.Fun.(*ast.SelectorExpr); ok {
+				// a call through a function-valued field of a table
+				// element: instantiate it for every entry of the table
+				if xid, ok := se.X.(*ast.Ident); ok {
+					if entries := roles.tables[roles.alias[xid.Name]]; len(entries) > 0 && depth < 2 {
+						for _, e := range entries {
+							hid, ok := e[se.Sel.Name].(*ast.Ident)
+							if !ok {
+								continue
+							}
+							h := findFunc(c06PkgFiles, hid.Name)
+							if h == nil || h.Body == nil {
+								continue
+							}
+							roles.entry = e
+							b := map[string]string{}
+							i := 0
+							for _, fl := range h.Type.Params.List {
+								for _, nm := range fl.Names {
+									if i < len(ce.Args) {
+										b[nm.Name] = c06AbstractOrder(roles.render(ce.Args[i], 0))
+									}
+									i++
+								}
+							}
+							roles.entry = nil
+							c06Reach(h, b, depth+1, lit || inLit, visit)
+						}
+					}
+				}
+				return true
+			}
+			id, ok := ce.Fun.(*ast.Ident)
+			if !ok {
+				return true
+			}
+			var args []string
+			for _, a := range ce.Args {
+				args = append(args, c06AbstractOrder(roles.render(a, 0)))
+			}
+			visit(c06Call{name: id.Name, args: args, inLit: lit || inLit})
+			if h := findFunc(c06PkgFiles, id.Name); h != nil && h.Body != nil && depth < 2 &&
+				!c06Leaf[id.Name] {
+				b := map[string]string{}
+				i := 0
+				for _, fl := range h.Type.Params.List {
+					for _, nm := range fl.Names {
+						if i < len(args) {
+							b[nm.Name] = args[i]
+						}
+						i++
+					}
+				}
+				c06Reach(h, b, depth+1, lit || inLit, visit)
+			}
+			return true
+		})
+	}
+	walk(fd.Body, false)
+}
+
+// functions whose calls are the facts themselves (never inlined)
+var c06Leaf = map[string]bool{
+	"updateOrder": true, "updateAccount": true, "copyOrder": true, "getBucket": true, "getNestedBucket": true,
+	"storeEventTX": true, "storeOrderTX": true, "storeOrderMinUnitsMatchTX": true, "storeOrderTlvTX": true,
+	"storeOrderMinNoderTierTX": true, "fetchOrderTX": true, "DeserializeOrder": true,
+	"deserializeOrderTlvData": true, "SerializeOrder": true, "NewUpdatedEvent": true, "storeAccount": true,
+	"readAccount": true, "NewSnapshot": true, "storePendingBatchSnapshot": true,
+}
+
+// c06OrderDecoders: DeserializeOrder and every same-package helper that
+// returns what DeserializeOrder returned (its body calls a decoder).
+func c06OrderDecoders() []string {
+	res := []string{"DeserializeOrder"}
+	for _, f := range c06PkgFiles {
+		for _, d := range f.Decls {
+			fd, ok := d.(*ast.FuncDecl)
+			if !ok || fd.Body == nil || fd.Recv != nil || c06Leaf[fd.Name.Name] {
+				continue
+			}
+			if fd.Type.Results == nil || len(fd.Type.Results.List) == 0 ||
+				exprString(fd.Type.Results.List[0].Type) != "order.Order" {
+				continue
+			}
+			calls := false
+			ast.Inspect(fd.Body, func(n ast.Node) bool {
+				if ce, ok := n.(*ast.CallExpr); ok {
+					if id, ok := ce.Fun.(*ast.Ident); ok && id.Name == "DeserializeOrder" {
+						calls = true
+					}
+				}
+				return true
+			})
+			if calls {
+				res = append(res, fd.Name.Name)
+			}
+		}
+	}
+	return res
+}
+
+var c06Decoders = []string{"DeserializeOrder"}
+
 // c06AbstractOrder replaces every rendered "result 0 of DeserializeOrder(…)"
 // by the token ORDER: the order decoded from the fixed-size encoding.
 func c06AbstractOrder(s string) string {
-	const open = "(DeserializeOrder("
 	for {
-		i := strings.Index(s, open)
+		i := -1
+		for _, dname := range c06Decoders {
+			if j := strings.Index(s, "("+dname+"("); j >= 0 && (i < 0 || j < i) {
+				i = j
+			}
+		}
 		if i < 0 {
 			return s
 		}
@@ -345,20 +584,10 @@ func callArgs(files []*ast.File, pkg, fn, callee string, n int) [][]string {
 		return nil
 	}
 	var res [][]string
-	roles := c06NewRoles(fd)
-	ast.Inspect(fd.Body, func(nd ast.Node) bool {
-		ce, ok := nd.(*ast.CallExpr)
-		if !ok {
-			return true
+	c06Reach(fd, nil, 0, false, func(c c06Call) {
+		if c.name == callee && len(c.args) >= n {
+			res = append(res, c.args[:n])
 		}
-		if id, ok := ce.Fun.(*ast.Ident); ok && id.Name == callee && len(ce.Args) >= n {
-			var a []string
-			for i := 0; i < n; i++ {
-				a = append(a, roles.render(ce.Args[i], 0))
-			}
-			res = append(res, a)
-		}
-		return true
 	})
 	if len(res) == 0 {
 		fail("%s.%s: no call of %s", pkg, fn, callee)
@@ -447,26 +676,18 @@ func c06StoreCalls(files []*ast.File, fn string) [][]string {
 		return nil
 	}
 	var res [][]string
-	roles := c06NewRoles(fd)
-	ast.Inspect(fd.Body, func(n ast.Node) bool {
-		ce, ok := n.(*ast.CallExpr)
-		if !ok {
-			return true
-		}
-		id, ok := ce.Fun.(*ast.Ident)
-		if !ok || !strings.HasPrefix(id.Name, "store") || !strings.HasSuffix(id.Name, "TX") {
-			return true
+	c06Reach(fd, nil, 0, false, func(c c06Call) {
+		if !strings.HasPrefix(c.name, "store") || !strings.HasSuffix(c.name, "TX") || len(c.args) == 0 {
+			return
 		}
 		// destination bucket, then every value argument (the nonce is skipped)
 		var vals []string
-		for _, v := range ce.Args[1:] {
-			if rv := roles.render(v, 0); rv != "$2" && rv != "cb$0" {
-				vals = append(vals, c06AbstractOrder(rv))
+		for _, rv := range c.args[1:] {
+			if rv != "$2" && rv != "cb$0" {
+				vals = append(vals, rv)
 			}
 		}
-		a := []string{id.Name, c06AbstractOrder(roles.render(ce.Args[0], 0)), strings.Join(vals, " | ")}
-		res = append(res, a)
-		return true
+		res = append(res, []string{c.name, c.args[0], strings.Join(vals, " | ")})
 	})
 	if len(res) == 0 {
 		fail("clientdb.%s: no store…TX calls", fn)
@@ -483,22 +704,10 @@ func c06CallbackDecodes(files []*ast.File, fn string) []string {
 		return nil
 	}
 	var res []string
-	roles := c06NewRoles(fd)
-	ast.Inspect(fd.Body, func(n ast.Node) bool {
-		fl, ok := n.(*ast.FuncLit)
-		if !ok {
-			return true
+	c06Reach(fd, nil, 0, false, func(c c06Call) {
+		if c.inLit && strings.Contains(strings.ToLower(c.name), "deserialize") && len(c.args) > 0 {
+			res = append(res, c.name+"("+c.args[len(c.args)-1]+")")
 		}
-		ast.Inspect(fl.Body, func(m ast.Node) bool {
-			if ce, ok := m.(*ast.CallExpr); ok {
-				name := exprString(ce.Fun)
-				if strings.Contains(strings.ToLower(name), "deserialize") {
-					res = append(res, name+"("+c06AbstractOrder(roles.render(ce.Args[len(ce.Args)-1], 0))+")")
-				}
-			}
-			return true
-		})
-		return false
 	})
 	return res
 }
@@ -633,6 +842,8 @@ func genC06() {
 	acctFiles := pkgFiles("account")
 	orderFiles := pkgFiles("order")
 	dbFiles := pkgFiles("clientdb")
+	c06PkgFiles = dbFiles
+	c06Decoders = c06OrderDecoders()
 	aucFiles := pkgFiles("auctioneer")
 	acct := newConstEnv(acctFiles)
 	ord := newConstEnv(orderFiles)
